@@ -11,6 +11,10 @@ X3 sift-down       in the heap sort's sift-down every comparison of a *computed*
         dominated by child <u count.
 X4 linear find     returns the loop index under cmp == 0 for that index, from a loop counting up from 0 by 1
         below count; otherwise -1.
+X5 pivot index      the element the quicksort hands to its partition routine as pivot has an index below count:
+        proven per alternative (x % count; (count - 1) / k; count / k, k >= 2; 0) under count > 1, or REFUTED by folding
+        the index expression for rand() in {0, RAND_MAX} and small counts (a concrete out-of-range pivot).  An
+        expression that is neither proven nor refuted is reported as not decided (no verdict either way).
 NOT decided: "sorted permutation", "search finds iff present", partition bounds (data-dependent).
 """
 from .. import astfacts, nw
@@ -83,12 +87,124 @@ def run(m, rep, tier):
     if n3 == 0:
         x3.undecided('sift-down', 'no comparison of a computed child index found')
 
+    x5 = rep.rule('X5', 'the quicksort pivot is an element of the (sub)array: index below count (proven or refuted; otherwise no verdict)', floor=1)
+    n5 = 0
+    for f in fns:
+        if any(c.callee == f.name for c in f.all_insts() if c.op == 'call'):
+            n5 += check_pivot(m, f, x5)
+    if n5 == 0:
+        x5.undecided('quicksort', 'no pivot selection among alternatives found in a recursive raw-array routine')
+
+    # ---- X6: (function pointer, context) pairing ---------------------------------------------
+    from .util import check_callback_context
+    _cb = rep.rule('X6', 'every call through a caller-supplied function pointer passes the context supplied with it', floor=1)
+    check_callback_context(m, _cb, ('array.c',))
+
     x4 = rep.rule('X4', 'linear find returns the first index whose element compares equal, else -1', floor=1)
     f = m.pfn('cstl_raw_array_find')
     if f is None:
         x4.undecided('cstl_raw_array_find', 'not in the model')
     else:
         check_find(m, f, x4)
+
+
+RAND_MAX = 2147483647
+
+
+def _fold(f, ref, env, depth=0):
+    """value of a side-effect-free integer expression under env (parameters and rand() results)"""
+    c = const_int(ref)
+    if c is not None:
+        return c
+    if isinstance(ref, str) and ref in env:
+        return env[ref]
+    i = f.get(ref) if isinstance(ref, str) else None
+    if i is None or depth > 24:
+        return None
+    bits = i.x.get('bits') or 64
+    m = (1 << bits) - 1
+    if i.op == 'call' and i.callee == 'rand':
+        return env.get('rand')
+    if i.op in ('zext', 'trunc'):
+        a = _fold(f, i.o[0], env, depth + 1)
+        return None if a is None else a & m
+    if i.op == 'sext':
+        a = _fold(f, i.o[0], env, depth + 1)
+        sb = i.x.get('sbits') or 32
+        if a is None:
+            return None
+        return (a - (1 << sb) if a >> (sb - 1) else a) & m
+    if i.op in ('add', 'sub', 'mul', 'udiv', 'urem', 'lshr', 'shl', 'and'):
+        a, b = _fold(f, i.o[0], env, depth + 1), _fold(f, i.o[1], env, depth + 1)
+        if a is None or b is None or (i.op in ('udiv', 'urem') and b == 0):
+            return None
+        r = {'add': a + b, 'sub': a - b, 'mul': a * b, 'udiv': a // b if b else 0, 'urem': a % b if b else 0,
+             'lshr': a >> min(b, 64), 'shl': a << min(b, 64), 'and': a & b}[i.op]
+        return r & m
+    return None
+
+
+def _pivot_below(f, pv, leaf, call):
+    """structural proof that index expression `leaf` is below count ($1), given count > 1 at the call"""
+    if pv.prove_at(('ult', leaf, '$1'), call):
+        return 'proven from the branch facts'
+    i = f.get(leaf) if isinstance(leaf, str) else None
+    if i is None:
+        return None
+    if i.op == 'urem' and strip_bitcasts(f, i.o[1]) == '$1':
+        return 'x % count'
+    if i.op in ('udiv', 'lshr'):
+        k = const_int(i.o[1])
+        a = f.get(i.o[0]) if isinstance(i.o[0], str) else None
+        if k is not None and k >= 1:
+            if a is not None and a.op in ('add', 'sub') and a.o[0] == '$1' and const_int(a.o[1]) in (1, (1 << 64) - 1):
+                return '(count - 1) / k'
+            if i.o[0] == '$1' and ((i.op == 'udiv' and k >= 2) or (i.op == 'lshr' and k >= 1)):
+                return 'count / k'
+    return None
+
+
+def check_pivot(m, f, rule):
+    pv = Prover(f)
+    n = 0
+    for c in f.all_insts():
+        if c.op != 'call' or not c.callee or c.callee == f.name or c.is_intrinsic():
+            continue
+        for o in c.o:
+            idx = _elem_index(f, o) if isinstance(o, str) else None
+            if idx is None or const_int(idx) is not None:
+                continue
+            from ..facts import phi_leaves
+            leaves = phi_leaves(f, pv.fc, idx)
+            if len(leaves) < 2:
+                continue          # the partition's pivot is chosen among alternatives
+            n += 1
+            bad, notes = [], []
+            for leaf, lb, lf in leaves:
+                if const_int(leaf) == 0:
+                    notes.append('0' if pv.prove_at(('ult', '#0', '$1'), c) or pv.prove_at(('ne', '$1', '#0'), c) else 'NOT DECIDED: 0 (count > 0 not established)')
+                    continue
+                why = _pivot_below(f, pv, leaf, c)
+                if why:
+                    notes.append(why)
+                    continue
+                wit = None
+                for cnt in (2, 3, 4, 7, 8, 1 << 20):
+                    for r in tuple(range(0, 17)) + (RAND_MAX - 2, RAND_MAX - 1, RAND_MAX):
+                        v = _fold(f, leaf, {'$1': cnt, 'rand': r})
+                        if v is not None and v >= cnt and wit is None:
+                            wit = (cnt, r, v)
+                if wit:
+                    bad.append('the pivot index %s is %d for count = %d when rand() returns %d: the pivot is an element outside the (sub)array'
+                               % (nw.describe(f, leaf), wit[2], wit[0], wit[1]))
+                else:
+                    notes.append('NOT DECIDED: %s' % nw.describe(f, leaf))
+            site = '%s:pivot' % f.name
+            if bad:
+                rule.violation(site, '; '.join(bad), c.loc(), {})
+            else:
+                rule.ok(site, 'pivot alternatives: %s' % ', '.join(notes), c.loc())
+    return n
 
 
 def _phi_sources(f, phi):
